@@ -13,9 +13,11 @@
    ([rw_list]); [c05_rewrite_idempotent]: replaying rewritten operations on the same pre-state
    reproduces the post-state.  Finding K2 (length-changing merge re-appended at the end) is
    outside this model of the rewrite: see KNOWN_FINDINGS.txt.
-   Sentence 2 (serialisation) is props/C13.v's [wire] layer plus the harness's round trips. *)
+   Sentence 2 [c05_buffer_wire], [c05_commit_wire]: a serialized buffer / commit, laid out exactly as
+   Buffer.WriteTo / Commit.WriteTo do (WireCommit.v, diffed byte for byte against them), decodes
+   to itself whatever follows, and no strict prefix of it is accepted; logs: props/C13.v. *)
 From stdpp Require Import gmap.
-From ColumnV Require Import Bytes Ops Buffer Store StoreProofs.
+From ColumnV Require Import Bytes Ops Buffer Store StoreProofs Wire WireCommit.
 Local Open Scope N_scope.
 
 Theorem c05_range_put_all : ∀ ops c,
@@ -52,3 +54,11 @@ Example c05_example :
   range (fold_left put [mkop KPut 5 (V8 7); mkop KMerge 20000 (VB [1;2]); mkop KDelete 3 V0; mkop KInsert 20001 V0] empty) 1
   = [mkop KMerge 20000 (VB [1;2]); mkop KInsert 20001 V0].
 Proof. vm_compute. reflexivity. Qed.
+
+Theorem c05_buffer_wire : safe wbuffer_enc wbuffer_dec wbuffer_ok.
+Proof. exact wbuffer_safe. Qed.
+Print Assumptions c05_buffer_wire.
+
+Theorem c05_commit_wire : safe commit_enc commit_dec commit_ok.
+Proof. exact commit_safe. Qed.
+Print Assumptions c05_commit_wire.
